@@ -404,3 +404,100 @@ func registerSyncMap(reg func(string, intercept), nop intercept) {
 		return nil
 	})
 }
+
+// ---- net.IP <-> string as an injective pair ---------------------------------------------
+//
+// (net.IP).String() of symbolic address bytes yields a Str that remembers the
+// bytes (Str.IP); its visible characters are an injective hex rendering, so
+// equality between two such strings is exactly equality of the address bytes.
+// net.ParseIP of such a string returns the bytes. Concrete addresses use the real
+// functions (executed from SSA).
+
+func (e *Engine) ipStrEq(a, b Str) *Term {
+	if a.IP != nil && b.IP != nil {
+		x, y := ipCanon(e, a.IP), ipCanon(e, b.IP)
+		r := e.tb.True
+		for i := range x {
+			r = e.tb.And(r, e.tb.Eq(x[i], y[i]))
+		}
+		return r
+	}
+	panic(e.unsupported("comparison of a symbolic IP string with a non-IP string"))
+}
+
+// ipCanon maps 4-byte addresses to their 16-byte v4-in-v6 form (as net.IP equality does).
+func ipCanon(e *Engine, b []*Term) []*Term {
+	if len(b) == 16 {
+		return b
+	}
+	r := make([]*Term, 16)
+	for i := 0; i < 10; i++ {
+		r[i] = e.tb.Const(8, 0)
+	}
+	r[10], r[11] = e.tb.Const(8, 0xff), e.tb.Const(8, 0xff)
+	copy(r[12:], b)
+	return r
+}
+
+func init() {
+	intercepts["(net.IP).String"] = func(e *Engine, fr *frame, a []Value) Value {
+		s := a[0].(Slice)
+		if s.Len != 4 && s.Len != 16 {
+			if s.Len == 0 {
+				return Str{S: "<nil>"}
+			}
+			return Str{S: "?invalid-ip"}
+		}
+		bs := e.sliceTerms(s)
+		all := true
+		for _, b := range bs {
+			if !b.IsConst() {
+				all = false
+			}
+		}
+		if all {
+			raw := make([]byte, len(bs))
+			for i, b := range bs {
+				raw[i] = byte(b.C)
+			}
+			return Str{S: netIPString(raw)}
+		}
+		hex := func(n *Term) *Term {
+			lt := e.tb.Cmp(OpUlt, n, e.tb.Const(8, 10))
+			return e.tb.Ite(lt, e.tb.Bin(OpAdd, n, e.tb.Const(8, '0')), e.tb.Bin(OpAdd, n, e.tb.Const(8, 'a'-10)))
+		}
+		out := []*Term{e.tb.Const(8, 'i'), e.tb.Const(8, 'p'), e.tb.Const(8, uint64('0'+len(bs)/4)), e.tb.Const(8, '~')}
+		for _, b := range bs {
+			out = append(out, hex(e.tb.Bin(OpLShr, b, e.tb.Const(8, 4))), hex(e.tb.Bin(OpBAnd, b, e.tb.Const(8, 15))))
+		}
+		return Str{Sym: out, IP: bs}
+	}
+	intercepts["net.ParseIP"] = func(e *Engine, fr *frame, a []Value) Value {
+		s := a[0].(Str)
+		if s.IP != nil {
+			return e.mkByteSlice(ipCanon(e, s.IP))
+		}
+		if s.IsConc() {
+			ip := netParseIP(s.S)
+			if ip == nil {
+				return Slice{}
+			}
+			return e.mkConcByteSlice(ip)
+		}
+		// symbolic host name: decide "looks like an IP literal" conservatively by
+		// case-splitting on the characters that every IP literal needs.
+		anySep := e.tb.False
+		for _, b := range s.Sym {
+			anySep = e.tb.Or(anySep, e.tb.Or(e.tb.Eq(b, e.tb.Const(8, '.')), e.tb.Eq(b, e.tb.Const(8, ':'))))
+		}
+		if !e.Branch(anySep) {
+			return Slice{} // no '.' and no ':' => not an IP literal
+		}
+		str := e.concStr(s, "ParseIP argument")
+		ip := netParseIP(str)
+		if ip == nil {
+			return Slice{}
+		}
+		return e.mkConcByteSlice(ip)
+	}
+}
